@@ -64,10 +64,11 @@ def run(ctx):
     if p.returncode != 0:
         broken.append(("driver-run", "semadriver C12 gen", p.stderr[-2000:]))
         return {"stats": stats, "disagreements": disagreements, "compared": compared, "broken": broken}
-    nsched = sum(1 for _ in open(sched))
+    nsched = sum(1 for l in open(sched) if l.startswith("sched "))
+    cover = [l[2:].strip() for l in open(sched) if l.startswith("# cover ")]
     R.log(f"C12: model variant {variant}; {nsched} schedules ({tier})")
     dur = 8000 if tier == "quick" else 40000
-    rc, out, err, dt = _sh([ctx["hbin"], "-scheds", sched, "-seed", str(seed), "-out", rundir, "-stress", "-dur", str(dur)], env=R.GOENV, timeout=3000)
+    rc, out, err, dt = _sh([ctx["hbin"], "-scheds", sched, "-seed", str(seed), "-out", rundir, "-stress", "-dur", str(dur), "-par", str(max(2, min(8, (os.cpu_count() or 4) // 2)))], env=R.GOENV, timeout=3000)
     R.log(f"harness c12: rc={rc} ({dt:.1f}s)")
     sp = os.path.join(rundir, "stats.json")
     if rc != 0 or not os.path.exists(sp):
@@ -75,6 +76,7 @@ def run(ctx):
         return {"stats": stats, "disagreements": disagreements, "compared": compared, "broken": broken}
     stats = json.load(open(sp))
     stats["model_variant"] = variant
+    stats["transition_cover"] = cover
     ok, derr = R.run_driver("C12", os.path.join(rundir, "ops.txt"), os.path.join(rundir, "model.txt"))
     if not ok:
         broken.append(("driver-run", "semadriver C12", derr[-2000:]))
